@@ -112,7 +112,12 @@ const peekKey = "main hall"
 const peekKText = `T.PeekK("main hall")`
 
 func stmtPoke(r *rand.Rand) *Stmt {
-	arg := Bin("%", TInt, VarE(P("T.Seq"), TInt, reflect.Int64), LitI(int64(r.Intn(3))+2))
+	// mostly the same text in every rule (a statement shared between rules), sometimes another one
+	mod := int64(3)
+	if r.Intn(3) == 0 {
+		mod = int64(r.Intn(3)) + 2
+	}
+	arg := Bin("%", TInt, VarE(P("T.Seq"), TInt, reflect.Int64), LitI(mod))
 	return &Stmt{Kind: "call", Call: CallE(tool(), "Poke", TAny, reflect.Invalid, arg)}
 }
 
